@@ -373,7 +373,8 @@ func judgeRun(s *stats, k *kase, origin *sim.Region, op *operator.Operator, e *e
 		if fp == nil {
 			continue
 		}
-		if mode == modeLegacy && op0.Role == metapb.PeerRole_Voter && fp.Role == metapb.PeerRole_Learner {
+		// (also when the feature level changed during the build: either convention may have been planned)
+		if (mode == modeLegacy || k.QueryFlip == "feature") && op0.Role == metapb.PeerRole_Voter && fp.Role == metapb.PeerRole_Learner {
 			s.count("legacy_voter_replaced_by_learner", 1)
 			continue
 		}
